@@ -2,11 +2,12 @@
   SrcDriver — line protocol over the *translated* kernels (Generated/DistSrc.lean run at `Float`), built as `srcdrv`.
   Used to validate the translator: the harness runs the Python function itself (`.py_func`, float64) and this
   executable on the same inputs and compares.  One operation per line:
-      <python function name> <nargs> { s <bits> | v <len> <bits…> | m <rows> <cols> <bits…> | n <nat> }…
+      <python function name> <nargs> { s <bits> | v <len> <bits…> | m <rows> <cols> <bits…> | n <nat> | i <len> <nat…> }…
   answers the bit patterns of the result (`d g_0 g_1 …` for gradient kernels), `none` for a raised error,
   `bad-op` for anything malformed or a function that is not in the translated table.
 -/
 import Generated.DistSrcRun
+import Generated.SparseSrcRun
 
 open Umap SrcRun
 
@@ -20,6 +21,11 @@ def parseArgs (t : Array String) : Option (List Arg) := Id.run do
       out := out.push (.s (Float.ofBits (t[i+1]!).toNat!.toUInt64)); i := i + 2
     else if k == "n" then
       out := out.push (.n (t[i+1]!).toNat!); i := i + 2
+    else if k == "i" then
+      let len := (t[i+1]!).toNat!
+      let mut v : Array Nat := #[]
+      for j in [0:len] do v := v.push (t[i+2+j]!).toNat!
+      out := out.push (.i v.toList); i := i + 2 + len
     else if k == "v" then
       let len := (t[i+1]!).toNat!
       let mut v : Array Float := #[]
@@ -38,13 +44,15 @@ def parseArgs (t : Array String) : Option (List Arg) := Id.run do
   return some out.toList
 
 def wellFormed (t : Array String) : Bool :=
-  t.size ≥ 2 && (t.toList.drop 1).all (fun s => s == "s" || s == "v" || s == "m" || s == "n" || s.toNat?.isSome)
+  t.size ≥ 2 && (t.toList.drop 1).all (fun s => s == "s" || s == "v" || s == "m" || s == "n" || s == "i" || s.toNat?.isSome)
 
 def step (line : String) : String :=
   let t := (line.trimAscii.toString.splitOn " ").toArray
   if !wellFormed t then "bad-op" else
   match parseArgs t with
-  | some a => " ".intercalate (run t[0]! a)
+  | some a =>
+    let r := run t[0]! a
+    " ".intercalate (if r == ["bad-op"] then runSparse t[0]! a else r)
   | none => "bad-op"
 
 partial def loop (h : IO.FS.Stream) : IO Unit := do
